@@ -620,6 +620,28 @@ PROPS["C15"] = dict(
 )
 SETUP_EXTRA += [("native", "cg")]
 
+# Dimensions added in the sixth and seventh rounds of seeded changes (DESIGN.md section 5, "Additions of the sixth and
+# seventh seeding rounds"); appended to the rule texts that end up in the evidence files.
+_LATER = {
+    "C03": "values whose Serialize asks is_human_readable() (std net address types, by-readability wrappers) anywhere in the trees and as map keys; the varied messages carry a map with the widest integers as keys and values",
+    "C04": "error types with a single variant (a zero-sized enum that is not uninhabited; one variant with parameters); a fourth path: the reply as the first item of a chain's reply stream",
+    "C06": "the owed replies are spelled in six styles (member orders, insignificant white space); the transport takes the chain's write only after 1..3 Pending answers while the replies are already waiting; real sockets: chains of up to 1.3 MB on connections that were written to before, a peer that is slow to take the calls",
+    "C07": "the replies of the mixed-consumer scripts are spelled in six styles (member orders, insignificant white space)",
+    "C08": "stray terminators (empty frames) in the bursts of every sixth client (oracle: everything answered, or the connection closed by the server with a prefix of what is owed); every fifth random scenario under a cooperative budget (1..8 transport operations per poll, then every transport answers Pending); every sixth with a service that suspends inside handle(); every world under a watchdog",
+    "C09": "fault kind huge-frame (1..3 MiB that is no call); cooperative budget and suspending service as in C08; a world whose poll never returns is a violation (watchdog), not a time-out",
+    "C10": "service-side streams count polls made after they ended (a violation); streams that are already ended when first polled; cooperative budget and suspending service as in C08",
+    "C11": "a frame of a later exchange in the receive buffer behind a same-read burst",
+    "C12": "success replies without parameters for methods that declare outputs, plain and streaming: one item per reply",
+    "C13": "members of different kinds may share a name",
+    "C14": "members of different kinds may share a name; one comment line in eight ends in white space",
+    "C15": "the empty inline struct () among the IDL types; null and {} are interchangeable only for the whole parameters value",
+    "C16": "fields named to dodge a keyword or marked internal (type_, in_, _id), described under those names (rendering is only demanded of descriptions whose names are legal IDL)",
+    "C17": "the varied messages carry a map with the widest integers as keys and values",
+    "C18": "floods through the transport (one call per read) under a cooperative budget of 1..8 transport operations per poll; a call behind a stream is ready once the stream closed and its items are out; real sockets: an order that looks unfair must repeat with a grace period of 2..200 ms for the reactor before it is reported",
+}
+for _k, _v in _LATER.items():
+    PROPS[_k]["rule"] = PROPS[_k]["rule"] + " ; " + _v
+
 LEVEL_TEXT = {}
 
 def _na():
